@@ -232,6 +232,10 @@ class EH(progx.InlineHooks):
     def mcall(self, recv, m, args, e, ev):
         if isinstance(recv, tuple) and recv and recv[0] == "list" and m == "as_ptr" and not args:
             return ("ptr", recv)
+        if isinstance(recv, tuple) and recv and recv[0] == "ptr" and m == "cast" and not args:
+            tf = (e[4] or "") if (e is not None and len(e) > 4 and isinstance(e[4], str)) else ""
+            if tf.replace(" ", "") in ("", "::<u8>"):
+                return ("ptr8", recv[1])       # the target type is u8 (explicitly, or inferred from from_raw_parts::<u8>)
         if isinstance(recv, tuple) and recv[0] == "parser" and m == "parse" and not args:
             self.parsed.append(recv)
             return self.outcome
